@@ -133,6 +133,8 @@ mut('c08-quadratic', D, "            consumed, result = embedded_value(value[off
 mut('c08-prealloc', D, "        length = common.Struct.integer.unpack(value[0:4])[0]\n        return length + 4, bytearray(value[4:length + 4])",
     "        length = common.Struct.integer.unpack(value[0:4])[0]\n        scratch = bytearray(length)\n        return length + 4, bytearray(value[4:length + 4])",
     ['C08'], 'allocation driven by the declared length')
+mut('c08-table-overrun', D, "            if offset > field_table_end:\n                raise ValueError(\n                    'Field table entry exceeds the declared table length')\n",
+    "", ['C08'], 'reintroduce F8 (exponential re-decode of bytes after a short table)')
 # ---- C09
 mut('c09-drop-except', F, "        method.unmarshal(frame_data[bytes_used:])\n    except (struct.error, ValueError, OverflowError) as error:",
     "        method.unmarshal(frame_data[bytes_used:])\n    except (ValueError, OverflowError) as error:", ['C09'],
